@@ -261,6 +261,15 @@ fn ws_exchange_inner(port: u16, frames: Vec<Frame>, wait_ms: u64, until: Option<
     let (tx, rx) = std::sync::mpsc::channel();
     let url = format!("ws://127.0.0.1:{}", port);
     let h = std::thread::spawn(move || ws::connect(url, |out| WsClient { out, frames: frames.clone(), got: tx.clone(), wait_ms, until: until.clone() }).map_err(|e| format!("{}", e)));
+    // the client library arms its own timeout only once the handshake is done: a server that accepts the connection and
+    // never answers the handshake would keep the client (and the caller) waiting for ever
+    let t0 = std::time::Instant::now();
+    while !h.is_finished() {
+        if t0.elapsed() > Duration::from_millis(wait_ms + 30_000) {
+            return Err(format!("the WebSocket exchange did not end within {} ms (handshake never answered?); last panic in this process: {} at {}", wait_ms + 30_000, crate::node::last_panic_msg(), crate::node::last_panic_loc()));
+        }
+        real_sleep(Duration::from_millis(2));
+    }
     let r = h.join().map_err(|_| "ws client thread panicked".to_string())?;
     r?;
     let mut out = vec![];
